@@ -222,6 +222,23 @@ CLAIMED = {
              'ValueError ended the session), eac4e7b (segmentation errors escaped the guarded region). No axioms.',
         technique='Coq proof: exception-class closure of the encoder and splitters by structural error-set lemmas, induction over the queue; trace correspondence of the real session on a virtual-time loop',
         design='6 (C06)'),
+    'C07': dict(
+        text='Coq theorems (Props/C07.v) over a transition-system model of start()/stop() and SimpleExponentialBackoff (Model/Lifecycle.v; the except '
+             'clauses of start() and _end_task are generated from esme.py): every network/peer fault class (ConnectionError and subclasses, '
+             'TimeoutError, SmppError, IncompleteReadError, OSError, ValueError), raised by connect() or by a session task, is caught by the connect '
+             'cycle; ANY sequence of faulty cycles of ANY length leaves start() running; start() returns only when the shutting-down flag is seen '
+             'and then makes no further attempt; for ANY minimum and number of increases the k-th wait after a reset sleeps 0, min, 2min, 4min ... '
+             'capped at min*2^increases (closed form, bounds, doubling), the loop sleeps exactly these delays during a failure streak and starts '
+             'over after a successful bind. Tied to the code by playing fault scripts and stop() times against the real ESME.start() on a '
+             'virtual-time loop: the delays slept by the real retry timer, the exception class each cycle ended with and the way start() ended '
+             'are compared with the model; an oracle states the property on the observations (back-off values and attempt times, start() alive '
+             'without stop; after stop(): bounded return, state CLOSED, unbind sent if the session was bound, every transport closed).',
+        note='Trusted: Coq kernel, translator, harness (virtual time), asyncio semantics of wait_for/cancel/close. PARTIAL: the bounded-time part of '
+             'stop() is checked by the oracle on the played scenarios (bound 4*socket_timeout + max back-off + enquire_link_interval + 5 s), not '
+             'proved - it depends on asyncio scheduling of three tasks. Proved for the code after fixes 480fe1d and 600b0b5 (connection left open '
+             'when stop() came before the session was bound). No axioms.',
+        technique='Coq proof: induction over cycle sequences of a transition system, closed form of the back-off recurrence (nia/lia); trace correspondence of the real session with fault injection on a virtual-time loop',
+        design='6 (C07)'),
 }
 
 PENDING_REASON = 'check not built yet in this round (planned, see DESIGN.md section 6); not claimed until its proof and correspondence run exist'
